@@ -64,11 +64,31 @@ def _item_fields_of_list(ctx, lst: str):
     return M.item_fields(ic)
 
 
+def _frame_root(v) -> bool:
+    """the expression is a method chain rooted in the list's own frame or in a freshly built DataFrame"""
+    e = v
+    while isinstance(e, ast.Call) and isinstance(e.func, ast.Attribute) and not (e.func.attr == "DataFrame"):
+        e = e.func.value
+    if isinstance(e, ast.Call) and call_name(e) == "DataFrame":
+        return True
+    return isinstance(e, ast.Attribute) and e.attr == "df" and isinstance(e.value, ast.Name) and e.value.id == "self"
+
+
+FRAME_ROLES = (("df", lambda n, v, st: v is not None and _frame_root(v)),)
+
+
+def _codec_fn(M, q, **kw):
+    """to_yaml / from_yaml on the normal form, the frame variable named `df` whatever the source calls it"""
+    from ..normal import with_roles
+    return with_roles(M.nfn(q, **kw), FRAME_ROLES)
+
+
+
 def writer_table(ctx, slot: str):
     """key -> (expression over declared columns, type) emitted by <List>.to_yaml; None if undecided."""
     M = ctx.M
     q = LISTS[slot] + ".to_yaml"
-    fn = M.nfn(q, subst="alias")
+    fn = _codec_fn(M, q, subst="alias")
     cols = M.list_columns(LISTS[slot])
     st: Dict[str, Tuple[ast.AST, Optional[str]]] = {c: (ast.Name(id=c, ctx=ast.Load()), None) for c in cols}
     problems = []
@@ -177,7 +197,7 @@ def reader_frame_table(ctx, slot: str, assume_present=("Lane", "EndTime")):
     """<List>.from_yaml: column -> ColState, plus issues [(node, message)]."""
     M = ctx.M
     q = LISTS[slot] + ".from_yaml"
-    fn = M.nfn(q)
+    fn = _codec_fn(M, q)
     st: Dict[str, ColState] = {}
     renames: Dict[str, str] = {}      # new name -> raw key (for columns first touched after the rename)
     issues = []
@@ -906,7 +926,7 @@ def rule_r10(ctx) -> List[R.Inst]:
     reach = _closure(ctx, [QUAMAP + ".read"])
     for slot in ("hits", "holds", "bpms", "svs"):
         q = LISTS[slot] + ".from_yaml"
-        fn = M.nfn(q)
+        fn = _codec_fn(M, q)
         file = M.mods[fn.mod].rel
         declared = set(M.list_columns(LISTS[slot]))
         key = f"{slot}:reader-projection"
